@@ -144,6 +144,24 @@ def readOptionalByte (t : UInt8) (dflt : UInt8) (s : Bytes) : Option (UInt8 × B
     | [b] => some (b, rest)
     | _ => none
 
+/-- an optional `SEQUENCE OF OCTET STRING` field: `ReadOptionalASN1` followed by the element loop. -/
+def readOptNets (t : UInt8) (b : Bytes) : Option (List Prefix × Bytes) :=
+  match readOptionalASN1 t b with
+  | none => none
+  | some (o, rest) =>
+    match (match o with | some s => decNetworks s.length s | none => some []) with
+    | none => none
+    | some ps => some (ps, rest)
+
+/-- the optional groups field. -/
+def readOptGroups (b : Bytes) : Option (List Bytes × Bytes) :=
+  match readOptionalASN1 tagGroups b with
+  | none => none
+  | some (o, rest) =>
+    match (match o with | some s => decGroups s.length s | none => some []) with
+    | none => none
+    | some gs => some (gs, rest)
+
 /-- `unmarshalDetails`: the decoded fields as a `Cert` with empty curve / key / signature. Trailing bytes
 after the issuer are ignored, as in the Go code. -/
 def unmarshalDetails (raw : Bytes) : Option Cert :=
@@ -155,40 +173,31 @@ def unmarshalDetails (raw : Bytes) : Option Cert :=
     | none => none
     | some (name, b) =>
       if name.isEmpty || name.length > Gen.cert_MaxNameLength then none else
-      match readOptionalASN1 tagNetworks b with
+      match readOptNets tagNetworks b with
       | none => none
-      | some (nets, b) =>
-        match (match nets with | some s => decNetworks s.length s | none => some []) with
+      | some (networks, b) =>
+        match readOptNets tagUnsafe b with
         | none => none
-        | some networks =>
-          match readOptionalASN1 tagUnsafe b with
+        | some (unsafeNetworks, b) =>
+          match readOptGroups b with
           | none => none
-          | some (uns, b) =>
-            match (match uns with | some s => decNetworks s.length s | none => some []) with
+          | some (groups, b) =>
+            match readOptionalBool tagIsCA b with
             | none => none
-            | some unsafeNetworks =>
-              match readOptionalASN1 tagGroups b with
+            | some (isCA, b) =>
+              match readInt64 tagNotBefore b with
               | none => none
-              | some (grp, b) =>
-                match (match grp with | some s => decGroups s.length s | none => some []) with
+              | some (nb, b) =>
+                match readInt64 tagNotAfter b with
                 | none => none
-                | some groups =>
-                  match readOptionalBool tagIsCA b with
+                | some (na, b) =>
+                  match readOptionalASN1 tagIssuer b with
                   | none => none
-                  | some (isCA, b) =>
-                    match readInt64 tagNotBefore b with
-                    | none => none
-                    | some (nb, b) =>
-                      match readInt64 tagNotAfter b with
-                      | none => none
-                      | some (na, b) =>
-                        match readOptionalASN1 tagIssuer b with
-                        | none => none
-                        | some (iss, _) =>
-                          some { version := 2, curve := 0, name := name, networks := networks,
-                                 unsafeNetworks := unsafeNetworks, groups := groups, isCA := isCA,
-                                 notBefore := nb * nsPerSec, notAfter := na * nsPerSec,
-                                 issuer := hexEnc (iss.getD []), publicKey := [], signature := [] }
+                  | some (iss, _) =>
+                    some { version := 2, curve := 0, name := name, networks := networks,
+                           unsafeNetworks := unsafeNetworks, groups := groups, isCA := isCA,
+                           notBefore := nb * nsPerSec, notAfter := na * nsPerSec,
+                           issuer := hexEnc (iss.getD []), publicKey := [], signature := [] }
 
 /-- `unmarshalCertificateV2(b, publicKey, curve)`: the certificate and its raw details. -/
 def unmarshal (b : Bytes) (publicKey : Bytes) (curve : Nat) : Except DecErr (Cert × Bytes) :=
